@@ -65,7 +65,7 @@ void ares_destroy(ares_channel_t *channel)
 #ifdef CARES_VERIF
   if (ares_verif_sync_cb != NULL) {
     ares_verif_sync_cb(ARES_VERIF_SYNC_SHARED_READ, &channel->reinit_thread,
-                       channel->reinit_thread);
+                       NULL);
   }
 #endif
   if (channel->reinit_thread != NULL) {
